@@ -560,7 +560,9 @@ func (src *Pkgsrc) loadUntypedVars() {
 	}
 
 	handleFile := func(pathName string, info os.FileInfo, err error) error {
-		assertNil(err, "handleFile %q", pathName)
+		if err != nil {
+			G.Logger.TechFatalf(NewCurrPathString(pathName), "Cannot be read: %s", err)
+		}
 		baseName := info.Name()
 		if info.Mode().IsRegular() && (hasSuffix(baseName, ".mk") || baseName == "mk.conf") {
 			handleMkFile(NewCurrPathSlash(pathName))
